@@ -49,7 +49,9 @@ def required_cells(tier):
               "elif-after-taken-branch", "directive-continuation", "empty-group", "class:enum", "class:random",
               "class:stress", "table-compared", "via-cli", "non-utf8-bytes", "block-comment-in-directive", "two-platforms",
               "file-includes-itself", "null-directive", "benign-directive", "form-feed-and-other-non-line-breaks",
-              "crlf-line-ends", "crlf-with-continuation-in-directive", "malformed-directive-in-skipped-group"]
+              "crlf-line-ends", "crlf-with-continuation-in-directive", "malformed-directive-in-skipped-group",
+              "line-longer-than-read-buffers", "utf-8-byte-order-mark", "nested-headers-with-unknown-extension",
+              "malformed-conditional-in-skipped-group"]
     return cells
 
 
@@ -144,6 +146,10 @@ def sprinkle(rng, body, p=0.2):
             odd = rng.choice(ODD_IN_DEAD_CODE)
             if not odd.startswith(("#if", "#elif", "#ifdef")):       # (conditionals nest even when skipped)
                 out.append(["chain", [["if", "0", [["code"], ["directive", odd], ["code"]]]]])
+            elif not odd.startswith("#elif"):
+                # a conditional that could not be evaluated still opens a group that its own #endif closes
+                out.append(["chain", [["if", "0", [["code"], ["directive", odd], ["code"], ["directive", "#else"], ["code"],
+                                                    ["directive", "#endif"], ["code"]]]]])
         if it[0] == "chain":
             out.append(["chain", [[kw, e, sprinkle(rng, sub, p)] for kw, e, sub in it[1]]])
         else:
@@ -189,8 +195,22 @@ def run_case(ctx, workdir, text, defines, r, cls, check_table=True, case=None):
                 if lines_[k_].strip() and not lines_[k_].rstrip().endswith(("\\", "*")) and "/*" not in lines_[k_] and "//" not in lines_[k_]:
                     lines_[k_] += [" \f", "\v", " /* page\fbreak */", " // \x85 \u2028 x", "\f /* \x1c */"][k_ % 5] if k_ % 3 == 0 else ""
             text = "\n".join(lines_)
-        with open(path, "w", newline="") as f:
+        if case is not None and case.get("longline"):
+            # one physical line far longer than any read buffer (a generated table on one line)
+            lines_ = text.split("\n")
+            for k_ in range(len(lines_)):
+                if lines_[k_].startswith("cbi_m_"):
+                    lines_[k_] += " int table[] = {" + ", ".join(str(v_ % 97) for v_ in range(9000)) + "};"
+                    break
+            text = "\n".join(lines_)
+        with open(path, "w", newline="", encoding="utf-8-sig" if case is not None and case.get("bom") else "utf-8") as f:
             f.write(text.replace("\n", "\r\n") if case is not None and case.get("crlf") else text)
+        if case is not None and case.get("oddext"):
+            # headers whose extension says nothing about their language, nested two deep
+            with open(os.path.join(workdir, "opcodes.def"), "w") as f:
+                f.write("#include \"opcodes_ext.tbl\"\n#define HAVE_OPCODES 1\n")
+            with open(os.path.join(workdir, "opcodes_ext.tbl"), "w") as f:
+                f.write("#define NUM_OPCODES 2\n")
     g = gcc.preprocess(path, defines=defines)
     if not g["ok"]:
         acc.excluded("gcc-diagnostic", cls=cls)
@@ -206,6 +226,12 @@ def run_case(ctx, workdir, text, defines, r, cls, check_table=True, case=None):
         cells.add("file-includes-itself")
     if (case or {}).get("formfeed") and "\f" in text:
         cells.add("form-feed-and-other-non-line-breaks")
+    if (case or {}).get("longline"):
+        cells.add("line-longer-than-read-buffers")
+    if (case or {}).get("bom"):
+        cells.add("utf-8-byte-order-mark")
+    if (case or {}).get("oddext"):
+        cells.add("nested-headers-with-unknown-extension")
     if (case or {}).get("crlf"):
         cells.add("crlf-line-ends")
         if "\\\n" in text:
@@ -216,6 +242,8 @@ def run_case(ctx, workdir, text, defines, r, cls, check_table=True, case=None):
         cells.add("benign-directive")
     if re.search(r"^##|^#[@!(;=\"']|^#\d|^#(include|define|undef|line)\s*$|^#define 1x", text, re.M):
         cells.add("malformed-directive-in-skipped-group")
+    if re.search(r"^#(if|ifdef|if 1 \+|if \)\()\s*$", text, re.M):
+        cells.add("malformed-conditional-in-skipped-group")
     all_lines = set()
     for it in r.items:
         all_lines.update(it["lines"])
@@ -264,7 +292,7 @@ def run_case(ctx, workdir, text, defines, r, cls, check_table=True, case=None):
     last_assoc = max([i for i, e in enumerate(ev.events) if e[0] == "assoc" and e[1] == 0] or [0])
     got = [("define" if e[1] == "DefineNode" else "undef", e[3]) for e in ev.events[last_assoc:]
            if e[0] == "eval" and e[1] in ("DefineNode", "UndefNode")]
-    if want != got and not (case or {}).get("selfinc"):      # with a nested pass over the same file the order interleaves
+    if want != got and not (case or {}).get("selfinc") and not (case or {}).get("oddext"):      # with a nested pass over the same file the order interleaves
         problems.append({"kind": "define-undef-trace", "expected": want[:30], "observed": got[:30]})
     # elif evaluated after a taken branch (advisory counter) -- consequences are what is judged
     # final macro table
@@ -381,7 +409,18 @@ def run_shard(ctx):
             ast = self_including(xr, ast)
         style = {"cont": 0.15, "comment": 0.15, "indent": 0.1} if style_roll < 0.5 else None
         case = {"ast": ast, "style": style, "sseed": srng_seed, "cli": (i % 50 == ctx.shard), "latin1": (i % 9 == 4),
-                "defines2": defines_b if i % 2 == 0 else None, "selfinc": selfinc, "formfeed": (i % 6 == 2), "crlf": (i % 8 == 5)}
+                "defines2": defines_b if i % 2 == 0 else None, "selfinc": selfinc, "formfeed": (i % 6 == 2), "crlf": (i % 8 == 5),
+                "longline": (i % 10 == 7), "bom": (i % 12 == 9), "oddext": (i % 9 == 1)}
+        if case["bom"]:
+            # the byte-order mark sits directly in front of a directive on the first line
+            while ast and ast[0][0] == "code":
+                ast = ast[1:]
+            ast = [["bare"], ["chain", [["ifdef", "K0", [["code"]]], ["else", None, [["code"]]]]]] + ast
+            case["ast"] = ast
+        if case["oddext"]:
+            ast = [["include", "q", "opcodes.def"],
+                   ["chain", [["if", "NUM_OPCODES == 2 && defined(HAVE_OPCODES)", [["code"]]], ["else", None, [["code"]]]]]] + ast
+            case["ast"] = ast
         r = render_case(case)
         if r.n_chains == 0:
             continue
